@@ -171,6 +171,11 @@ def cases(tier, rng):
             for k in ks:
                 for mode in ("seek", "carry"):
                     yield {"op": "chunks", "fmt": real_fmt, "mode": mode, "file": data, "k": k, "longest": longest, "n": len(ents)}
+                    # the same read with max_chunk_size (model: readAllCap; theorem capped_read)
+                    if data and (big or rng.random() < 0.25):
+                        cap = rng.choice([k, k + 1, longest, longest + 1, 2 * longest, len(data), len(data) + 2, rng.randint(1, len(data) + 3)])
+                        if cap >= k:
+                            yield {"op": "chunks", "fmt": real_fmt, "mode": mode, "file": data, "k": k, "cap": cap, "longest": longest, "n": len(ents)}
         yield {"op": "whole", "fmt": real_fmt, "file": [ord(c) for c in text[:-1]], "n": len(ents)}
     # --- random larger files, chunk sizes around divisors of the file length and entry boundaries
     for _ in range(300 if big else 60):
@@ -354,7 +359,7 @@ def impl(c):
                 r.set_prepend_mode()
             chunks, live = [], []
             for _ in range(len(c["file"]) + 5):
-                b = r.read_chunk(min_chunk_size=c["k"])
+                b = r.read_chunk(min_chunk_size=c["k"], max_chunk_size=c["cap"]) if "cap" in c else r.read_chunk(min_chunk_size=c["k"])
                 if b is None:
                     break
                 raw = _raw(b)
@@ -366,6 +371,8 @@ def impl(c):
                 return {"err": "err:ChunkChangedAfterLaterReads"}
             return {"chunks": chunks}
         except Exception as e:
+            if "cap" in c and "No complete entry found" in str(e):
+                return {"err": "cap"}
             return {"err": _errname(e)}
     if op == "entries":
         bt, suffix = _buffer_type(c["fmt"])
@@ -445,7 +452,7 @@ def agree(c, got, exp):
         return got.get("data") == exp["data"]
     if c["op"] == "chunks":
         if "err" in got:
-            return _too_small(c)
+            return _too_small(c) or (got["err"] == "cap" and "cap" in c)     # a capped read may refuse; it must not complete otherwise
         ch = got["chunks"]
         return [b for x in ch for b in x] == exp["flat"] and all(len(x) > 0 for x in ch)
     if "whole_err" in got:
@@ -453,6 +460,12 @@ def agree(c, got, exp):
     if "err" in got:
         return _too_small(c) or bool(c.get("maxk"))      # with a cap the read may refuse; it must not complete with other entries
     return got["chunked"] == got["whole"]
+
+
+def agree_spec(c, sp, exp):
+    if "cap" in c and isinstance(sp, dict) and sp.get("err") == "cap":
+        return True        # whether a capped read refuses is the model's business (compared with the implementation exactly)
+    return core.canon(sp) == core.canon(exp)
 
 
 def finding_key(c, got, exp):
